@@ -295,8 +295,21 @@ def handshake_cases(tier, rng):
     return cs
 
 
+def two_session_cases(tier, rng):
+    """Two established sessions: what one of them (or a stranger using its identifier) asks for with a set-options request - codecs, fragment
+    size, flags - changes nothing of the other session (implementation only)."""
+    cs = []
+    combos = [(83, 83, 200, 255, "other"), (85, 82, 1200, 1, "other"), (84, 86, 300, 0, "other"), (83, 82, 500, 255, "stranger"), (84, 84, 65535, 1, "other")]
+    if tier == "thorough":
+        combos += [(u, d, f, l, w) for u in (84, 83, 85, 86) for d in (84, 83, 85, 87, 88, 86, 82) for f in (1, 768, 4000) for l in (0, 255) for w in ("other", "stranger")]
+    for u, d, f, l, w in combos:
+        line = "c12two %d %d %d %d %s" % (u, d, f, l, w)
+        cs.append({"line": line, "key": line, "model": False, "tags": {"side": "server", "src": "two-sessions", "cmd": "o", "owner": 0, "qt": 10, "nq": 1, "under": "domain"}})
+    return cs
+
+
 def cases(tier, rng):
-    return server_cases(tier, rng) + client_cases(tier, rng) + near_wrap_cases(tier, rng) + handshake_cases(tier, rng)
+    return server_cases(tier, rng) + two_session_cases(tier, rng) + client_cases(tier, rng) + near_wrap_cases(tier, rng) + handshake_cases(tier, rng)
 
 
 def oracle(case, impl):
@@ -312,6 +325,16 @@ def oracle(case, impl):
         return [("%s-%s" % (side, p[0]), "%s did not come back (%s) on %s" % (side, impl[:80], case["line"][:200]))]
     if side == "client":
         return []
+    if case["line"].startswith("c12two"):
+        if p[0] != "set":
+            return [("server-setup", "fixture could not be established: " + impl[:100])]
+        f = case["line"].split()
+        out = []
+        if p[3] != "1" or p[4:] != ["a", "ok", "1"]:
+            out.append(("session-disturbed;by=" + f[5], "session B's set-options request (codecs %s/%s, fragment size %s) changed session A: %s" % (f[1], f[2], f[3], impl)))
+        if f[5] == "stranger" and p[1] == "ok":
+            out.append(("session-disturbed;by=stranger-accepted", "a set-options request for session B from a foreign address was accepted: " + impl))
+        return out
     if case["line"].startswith("c12h"):
         return []      # any end of the handshake but a crash or a hang is fine (handled above)
     if case["line"].startswith("c12q"):
